@@ -20,6 +20,10 @@ b2u = z3.Function("bytes_uuid", BSeq, Int)
 utf8 = z3.Function("utf8", z3.StringSort(), BSeq)   # str.encode("utf-8")
 utf8inv = z3.Function("utf8inv", BSeq, z3.StringSort())
 utf8ok = z3.Function("utf8ok", BSeq, z3.BoolSort())  # the byte string is well-formed UTF-8
+is_float = z3.Function("is_float", Val, z3.BoolSort())                 # the value is a Python float (floats are opaque values)
+fpack = z3.Function("struct_pack", Val, Val, BSeq)                    # struct.pack(fmt, x) for a one-field format
+funpack = z3.Function("struct_unpack", Val, BSeq, Val)                # struct.unpack(fmt, b)[0]
+STRUCT_SIZE = {"<f": 4, "<d": 8, ">f": 4, ">d": 8, "f": 4, "d": 8, "<e": 2}
 tok_items = z3.Function("findall_items", Val, Val, z3.ArraySort(Int, Val))
 tok_len = z3.Function("findall_len", Val, Val, Int)
 arr_seq = z3.Function("frozen_bytes", z3.ArraySort(Int, Val), Int, BSeq)
@@ -173,6 +177,28 @@ class IoModel:
                 raise Unsupported("int.from_bytes with symbolic signedness")
             # the length must be known up to a small concrete bound on this path
             return sv_int(self.from_bytes_le(eng, st, b, z3.is_true(sg)))
+        if name in ("struct.pack", "struct.unpack"):
+            fmt = args[0]
+            if not (fmt.k == "str" and z3.is_string_value(fmt.t) and fmt.t.as_string() in STRUCT_SIZE):
+                raise Unsupported("struct format that is not a known one-field float format")
+            size = STRUCT_SIZE[fmt.t.as_string()]
+            fv = to_val(fmt)
+            if name == "struct.pack":
+                x = to_val(args[1])
+                s2 = st.fork()
+                s2.assume(z3.Not(is_float(x)), "struct.pack: not a float")
+                eng.exc_paths.append((s2, Exc("StructError")))
+                st.assume(is_float(x))
+                st.define(z3.Length(fpack(fv, x)) == size)
+                return sv_blob(fpack(fv, x))
+            b = as_blob(eng, args[1], st, "argument of struct.unpack")
+            s2 = st.fork()
+            s2.assume(z3.Length(b) != size, "struct.unpack: wrong number of bytes")
+            eng.exc_paths.append((s2, Exc("StructError")))
+            st.assume(z3.Length(b) == size)
+            st.define(is_float(funpack(fv, b)))
+            from .core import sv_tuple
+            return sv_tuple([SV("val", funpack(fv, b))])
         if name in ("findall", "re.findall"):
             # re.findall(pattern, string): not modelled beyond "a list of strings determined by (pattern, string)"
             pat, text = to_val(args[0]), to_val(args[1])
